@@ -29,6 +29,17 @@ def run(rep, work, tier, seed, only=None):
             rep.violation(key, 'run_parallel raised for I=%d N=%d C=%d T=%d: %s' % (I, N, C, T, c['error']),
                           {'I': I, 'N': N, 'C': C, 'T': T, 'error': c['error']})
             continue
+        de = c.get('delete_existing')
+        if de:
+            rep.case(('delete-existing', I, N, C, T), True)
+            rep.count('delete_existing_sequences')
+            if de['error'] or de['missing'] or not de['same_tasks']:
+                what = ('raised %s' % de['error']) if de['error'] else \
+                    ('the result files %s written by earlier nodes are gone after the later nodes started' % de['missing'][:4]) if de['missing'] \
+                    else 'launches other tasks than without the flag'
+                rep.violation(dict(key, option='delete-existing'),
+                              'I=%d N=%d C=%d T=%d with --delete-existing, nodes 1..N started one after the other on one results directory: %s'
+                              % (I, N, C, T, what), {'I': I, 'N': N, 'C': C, 'T': T, 'option': '--delete-existing', 'detail': de})
         tasks = c['tasks']
         names = [t[1] for t in tasks]
         width = len(str(N * C))
